@@ -118,6 +118,11 @@ class C01(object):
                 # with their own parameters, and a second Ctransform object for another parameter set
                 "concurrent": [draw_pars(rnd) for _ in range(rnd.choice([0, 0, 1, 2]))], "ccfg": enginea.draw_cfg(rnd, max_team=4),
                 "other_ct": draw_pars(rnd) if rnd.random() < 0.5 else None,
+                # what the table holds in its derived columns before the update: nothing, single precision columns (as
+                # read from a file written that way), or one placeholder array under every title
+                "preexisting": rnd.choice([None, None, "f4", "shared"]),
+                # sf2gv(out=...): a refused call (omega of the wrong length) between two uses of the caller's array
+                "refused_call": rnd.random() < 0.4,
                 # history: a long-lived columnfile first updated with OTHER parameters, which are then edited in place
                 "history": None if rnd.random() < 0.5 else {"first_pars": (draw_pars(rnd) if rnd.random() < 0.6 else "tiny"),
                                                             "tiny": [rnd.choice(["distance", "y_center", "z_center", "y_size", "z_size",
@@ -250,9 +255,15 @@ class C01(object):
         enginea.apply_cfg(sim, cfgP, strict=0, track_conflicts=0, pct_est=max(20, 45 * n // cfgP["team"]), step_cap=4000000000)
         sim.begin_run()
         Pcols = {}
+        refusal_damage = None
         with contextlib.redirect_stdout(io.StringIO()):
             hist = desc.get("history") if route in ("updateGeometry", "updateGV") else None
             cp = base.copy()
+            pre = desc.get("preexisting") if not hist else None
+            if pre and route in ("updateGeometry", "updateGV"):
+                shared = np.zeros(n)
+                for c_ in COLS:
+                    cp.addcolumn(np.zeros(n, np.float32) if pre == "f4" else shared, c_)
             P2live = P2
             if hist:
                 fp = hist["first_pars"]
@@ -285,6 +296,18 @@ class C01(object):
                 Pcols = {c: np.asarray(cp.getcolumn(c)) for c in ("gx", "gy", "gz")}
             elif route == "sf2gv":
                 gv = ct.sf2gv(sc, fc, om, pars["t_x"], pars["t_y"], pars["t_z"])
+                if desc.get("refused_call") and n > 1:
+                    # the caller keeps one array for the g-vectors; a call that is refused must leave it as it was
+                    kept = np.array(gv, copy=True)
+                    try:
+                        ct.sf2gv(sc, fc, om[:-1], pars["t_x"], pars["t_y"], pars["t_z"], out=gv)
+                        refused = False
+                    except Exception:
+                        refused = True
+                    if refused and gv.tobytes() != kept.tobytes():
+                        refusal_damage = float(np.abs(gv - kept).max())
+                    elif not refused:
+                        gv = ct.sf2gv(sc, fc, om, pars["t_x"], pars["t_y"], pars["t_z"], out=gv)
                 Pcols = {"gx": gv[:, 0], "gy": gv[:, 1], "gz": gv[:, 2]}
                 x3 = ct.sf2xyz(sc, fc)
                 o6 = ct.xyz2geometry(x3, om, pars["t_x"], pars["t_y"], pars["t_z"])
@@ -300,6 +323,10 @@ class C01(object):
                 Pcols = {"lgx": gx, "lgy": gy, "lgz": gz}
         stP = sim.stats()
         sts.append(stP)
+        if viol is None and refusal_damage is not None:
+            viol = {"class": "refused-call-modified-output", "key": "geometry:refused-call-modified-output",
+                    "detail": "sf2gv(out=gv) refused a call (omega one element short) but the caller's g-vector array was overwritten "
+                              "(largest change %.3g)" % refusal_damage}
         if viol is None and K:
             if route == "get_local_gv":
                 c0 = base.copy()
@@ -355,6 +382,7 @@ class C01(object):
         meas["numba_checked"] = 1 if desc["numba"] else 0
         meas["concurrent_python_callers"] = n_conc
         meas["second_Ctransform_alive"] = 1 if ct_other is not None else 0
+        meas["preexisting_derived_columns"] = {str(desc.get("preexisting")): 1}
         meas["history_runs(in-place parameter edit between updates)"] = 1 if (desc.get("history") and route in ("updateGeometry", "updateGV")) else 0
         meas["branch_cut_peaks_excluded"] = int(cut.sum())
         meas["np_empty_garbage_buffers"] = self.proxy.count
